@@ -59,8 +59,8 @@ func (reg *Reg) ReferrerList(ctx context.Context, rSubject ref.Ref, opts ...sche
 		if !ok || referrerEnabled {
 			// attempt to call the referrer API
 			rl, err = reg.referrerListByAPI(ctx, r, config)
-			if !ok {
-				// save the referrer API state
+			if !ok && (err == nil || ctx.Err() == nil) {
+				// save the referrer API state, a request that was cancelled or timed out says nothing about the API
 				reg.featureSet("referrer", r.Registry, r.Repository, err == nil)
 			}
 			if err == nil {
@@ -383,7 +383,10 @@ func (reg *Reg) referrerPing(ctx context.Context, r ref.Ref) bool {
 	}
 	resp, err := reg.reghttp.Do(ctx, req)
 	if err != nil {
-		reg.featureSet("referrer", r.Registry, r.Repository, false)
+		if ctx.Err() == nil {
+			// a request that was cancelled or timed out says nothing about the API
+			reg.featureSet("referrer", r.Registry, r.Repository, false)
+		}
 		return false
 	}
 	_ = resp.Close()
